@@ -308,18 +308,20 @@ def run(ctx):
         raise tlc.MachineryError("vacuity: no null / empty cell")
     codec.check_witnesses(ctx, tlc)
 
-    # binding self-test: a corrupted expectation must show up as a deviation of BOTH builds, identically (no difference);
-    # a result altered on one side only must show up as a difference
+    # binding self-test: a corrupted expectation must change the judgement of BOTH builds; the comparison must report a
+    # one-sided deviation and nothing for identical results (independent of how the driver under test behaves)
     probe = next(s for s in states if s["expect"] == "ok" and s["ty"] == ["list", ["int"]] and len(s["val"]) == 2 and all(s["val"]))
     bad = dict(probe)
     bad["norm"] = list(reversed(probe["norm"])) if probe["norm"][0] != probe["norm"][1] else probe["norm"][:1]
-    c_bad = run_compiled(ctx, build_dir, [bad])
-    p_bad = run_pure([bad])
-    if not c_bad["devs"] or not p_bad["devs"] or compare(p_bad, c_bad):
-        raise tlc.MachineryError("binding self-test failed: corrupted expectation not seen identically by both builds")
-    tampered = {"devs": {}, "cases": 1, "rows": 0, "cells": 0}
-    if not compare(tampered, c_bad):
-        raise tlc.MachineryError("binding self-test failed: a one-sided deviation is not reported as a difference")
+    if run_pure([probe])["devs"] == run_pure([bad])["devs"] or \
+            run_compiled(ctx, build_dir, [probe])["devs"] == run_compiled(ctx, build_dir, [bad])["devs"]:
+        raise tlc.MachineryError("binding self-test failed: corrupted expectation not seen by both builds")
+    one_sided = {"devs": dict(pure["devs"]), "cases": pure["cases"], "rows": pure["rows"], "cells": pure["cells"]}
+    one_sided["devs"]["types|selftest|decode|"] = {"sig": "types:decode:list", "real": "x", "spec": "y", "type": "list<int>",
+                                                   "pv": 4, "value": [], "cell": ""}
+    if compare(pure, {"devs": {k.replace("|ProtocolHandler|", "|LazyProtocolHandler|"): v for k, v in pure["devs"].items()}}) \
+            or len(compare(one_sided, {"devs": {}})) != len(one_sided["devs"]) + sum(1 for k in one_sided["devs"] if k.startswith("rows|")):
+        raise tlc.MachineryError("binding self-test failed: the comparison of the two builds does not report what it should")
     ctx.note("binding_selftest", {"corrupted_rejected": 2})
 
     groups = {}
